@@ -216,11 +216,16 @@ def run(F, rep):
     # ------------------------------------------------------------------ clauses shared with C09: hasUnlinkedUnits/linkUnits decide "linked" by the owning model of the units object
     import core
     import c09
-    c09.run(F, core.Borrowed(rep, only={'C09.P3', 'C09.P4', 'C09.Q1'}))
+    if not getattr(rep, 'nested', False):
+        c09.run(F, core.Borrowed(rep, only={'C09.P3', 'C09.P4', 'C09.Q1'}))
 
     # ------------------------------------------------------------------ W: walks over the component tree are complete
     import recursion as _recw
     _recw.rule_walkers(F, rep, 'C19.W1', ['findAllVariablesWithEquivalences'], 1, 'collecting the variables whose interfaces are fixed')
+
+    # ------------------------------------------------------------------ every element of a collection is handled
+    from engines import rule_visit_all
+    rule_visit_all(F, rep, 'C19.Y1', lambda g: g.file.endswith(('/utilities.cpp', '/model.cpp')), 10, 'utilities.cpp and model.cpp')
 
 
 
